@@ -48,7 +48,7 @@ P = {
    text="For builds in which the eviction hook counted zero, sets must be isomorphic to the independently computed minimal acyclic DFA and maps must contain no two nodes with the same signature; for every build emitted nodes <= trie nodes; on the shipped corpora realised sharing must exceed one half of the achievable; extra shapes: cross products (equivalent wide nodes), shared suffixes of 64..300 bytes, > 1 MiB files with few distinct nodes, large sets/maps under a roomy geometry.",
    note="Trusted: the harness trie/min-DFA code, the eviction hook; transducer-minimality (output placement) not claimed.", ref="5/C12"),
  "C13": dict(level="exploration", tech="metamorphic heap measurement with a counting global allocator in single-threaded probe children (N vs N/2)",
-   text="Key sequences with bounded fan-out and key length and unboundedly many distinct nodes are streamed to a discarding sink in a child process with a counting allocator; live heap at N/2 and peak up to the end of finish() must agree within 10% + 128 KiB (10% + 8 KiB for caches of <= 256 cells, where slow leaks show) for 17 configurations: fan-outs 2..40, key lengths 12..250, prefix-pair keys, increasing/hashed/decreasing values, three geometries.",
+   text="Key sequences with bounded fan-out and key length and unboundedly many distinct nodes are streamed to a discarding sink in a child process with a counting allocator; live heap at N/2 and peak up to the end of finish() must agree within 10% + 128 KiB (10% + 8 KiB for caches of <= 256 cells, where slow leaks show) for 21 configurations: fan-outs 2..40, key lengths 12..250, prefix-pair keys, increasing/hashed/decreasing values, three geometries, and discarding sinks that take at most 1/3/4/8 bytes per call with every 7th call interrupted (what the sink has not taken must not pile up).",
    note="Asymptotic claim checked at finitely many N (4e5 quick, up to 1e7 thorough); growth below 5% per doubling would pass.", ref="5/C13"),
  "C14": dict(level="exploration", tech="metamorphic heap measurement of traversals with a counting allocator (small N vs large N); zero-allocation assertion for open/get",
    text="Peak extra heap during stream/range/search traversals and k-way set operations is measured at two FST sizes in probe children and must not grow with N; operations: stream, range, search with Subsequence / StartsWith / DFAs with and without dead states / Levenshtein / regex DFA, search_with_state, the four set operations for k in {2,3,8} and a union of range and search streams; Fst::new on borrowed/mapped bytes, get, contains_key and len (also on an FST with fan-outs 256/24/12) must perform zero allocations.",
